@@ -32,6 +32,7 @@ ASSUMPTIONS = [
     "tolerance 1e-9 x kernel magnitude (offsets make centring a cancellation)",
     "trace scaling degenerate (centred trace ~ 0) cases are skipped",
 ]
+RULE = RULE + " " + forms.RULE_SUFFIX
 
 
 def gen(rng, tier, index):
